@@ -538,7 +538,8 @@ impl String {
             IntegerOrInfinity::Integer(i) if i >= 0 && i < len => i as usize,
             // 6. Else,
             // a. Let k be len + relativeIndex.
-            IntegerOrInfinity::Integer(i) if i < 0 && (-i) <= len => (len + i) as usize,
+            // NOTE: `len + i >= 0` instead of `-i <= len`: `-i` overflows for `i64::MIN`.
+            IntegerOrInfinity::Integer(i) if i < 0 && len + i >= 0 => (len + i) as usize,
             // 7. If k < 0 or k ≥ len, return undefined.
             _ => return Ok(JsValue::undefined()),
         };
